@@ -220,7 +220,7 @@ def main():
             raise Untranslatable('arms %s' % sorted(seen))
         text = 'Definition gen_store_step (command : ccmd) : SM unit :=\n  match command with\n' + '\n'.join(out) + '\n  end.\n'
         ok = True
-    except (Untranslatable, R.ParseError, IndexError, KeyError, TypeError) as ex:
+    except Exception as ex:      # anything the translator does not understand leaves the site untied; it never aborts the check
         # untied: fall back on a definition that is the model by construction is not possible here (different state shape);
         # the committed skeleton of the pinned tree is kept so that the file compiles, and the site is reported as untied
         ok = False
